@@ -287,7 +287,13 @@ B_URLS = [
     ("url", 1, 0, 0, 1, 0, 0, "str"),  # https://example.com/      (destination of http://example.com:443/, other scheme)
 ]
 B_HOSTS = ["new.example", "NEW.example", "::1", "bücher.example", b"xn--bcher-kva.example", "127.0.0.1", "old.example"]
-B_EDITS = B_URLS + [("host", h) for h in B_HOSTS] + [("port", p) for p in (80, 443, 8080)] + [("scheme", s) for s in ("http", "https")]
+# set-up steps (never judged themselves, like a scheme edit): the Host header / authority / host_header is edited by
+# hand to a value that collides with the host and port edits, so that one of them may already name the next destination
+# while the other does not
+B_MANUAL = [(op, v) for op in ("set-host-header", "set-authority", "set-host_header") for v in ("new.example", "example.com:8080")]
+B_EDITS = (B_URLS + [("host", h) for h in B_HOSTS] + [("port", p) for p in (80, 443, 8080)] + [("scheme", s) for s in ("http", "https")]
+           + B_MANUAL)
+JUDGED_OPS = ("url", "host", "port")
 
 
 def host_kind_of(h: str) -> str:
@@ -320,6 +326,12 @@ def do_edit(r: Request, e):
         r.port = e[1]
     elif op == "scheme":
         r.scheme = e[1]
+    elif op == "set-host-header":
+        r.headers["Host"] = e[1]
+    elif op == "set-authority":
+        r.authority = e[1]
+    elif op == "set-host_header":
+        r.host_header = e[1]
     else:
         raise HarnessError("unknown edit %r" % (e,))
 
@@ -367,7 +379,7 @@ def run_case(case, t: Tally, verbose=False):
         feats = {"edit": "port", "host_kind": host_kind_of(r.data.host)}
         dest_host, dest_port = canon_host(bare_host(r.data.host)), last[1]
     else:
-        raise HarnessError("a case must not end in a scheme edit")
+        raise HarnessError("a case must end in a url/host/port edit (scheme and manual header edits are set-up steps)")
     if dest_host is None:
         raise HarnessError("destination host of %r is outside the reference" % (case,))
 
@@ -487,7 +499,7 @@ def expand_a(block):
                     yield (kind, [e])
 
 
-ENDERS = [e for e in B_EDITS if e[0] != "scheme"]
+ENDERS = [e for e in B_EDITS if e[0] in JUDGED_OPS]
 B_KINDS = [k for k in KINDS if k != "make"]
 
 
